@@ -67,7 +67,7 @@ class Lexer(object):
 
     @TOKEN(r"[\r\n]+")
     def t_newline(self, t):
-        t.lexer.lineno += len(t.value)
+        t.lexer.lineno += len(t.value.replace("\r\n", "\n"))
 
     # Defined after the other function rules so that it keeps the lowest priority among them; the string-defined
     # rules are single delimiter characters (or True/False, which t_ID always matches first) that this pattern excludes
